@@ -7,16 +7,27 @@ import PjVerif.Lemmas.SchedC02
 import PjVerif.Props.Witness
 namespace Pj
 
+/-- under the structural facts C01 guarantees for every reachable graph (parent pointers agree with the children
+    lists, links are stored on both ends) and when no task that has children carries a dependency link:
+    a leaf with unfixed start never starts, and never has work reserved, on a day earlier than the end day of any
+    prerequisite, the project start day, its min_start day or the current day; a milestone sits exactly at the latest
+    prerequisite end (or the project start) -/
 theorem C02_partial (env : Env) (f0 : Uid → Fields) (res0 : List (Option Nat × Cal)) (o : Output)
     (hf : env.flagsOK) (hc : env.clockOK) (hs : noSummaryLinks env = true) (ho : outsideLeaves env = true)
+    (hp : env.parentsOK) (hl : env.linksSym)
     (h : forwardCalc env f0 res0 = .ok o) :
-    c02Leaf env f0 o = true ∧ c02Milestone env o = true := by
-  sorry
+    c02Leaf env f0 o = true ∧ c02Milestone env o = true :=
+  C02_partial_v2 env f0 res0 o hf hc hs ho hp hl h
 
 /-- the full statement fails on the model exactly as it fails on the code (replayed there on every run,
     findings/KF-S2-C02.json): a kernel-checked counterexample with a link on a summary task -/
 theorem C02_full_fails :
     ∃ o, forwardCalc Witness.kfS2Env Witness.kfS2F0 Witness.kfS2Res = .ok o ∧ c02Leaf Witness.kfS2Env Witness.kfS2F0 o = false := by
-  sorry
+  have hev : (match forwardCalc Witness.kfS2Env Witness.kfS2F0 Witness.kfS2Res with
+      | .ok o => c02Leaf Witness.kfS2Env Witness.kfS2F0 o == false
+      | .error _ => false) = true := by decide +kernel
+  cases hc : forwardCalc Witness.kfS2Env Witness.kfS2F0 Witness.kfS2Res with
+  | error e => rw [hc] at hev; cases hev
+  | ok o => rw [hc] at hev; exact ⟨o, rfl, by simpa using hev⟩
 
 end Pj
